@@ -115,7 +115,7 @@ CHECKS = {
              "the transcribed rule yields (TLC, named deviations) and in the type the real AccumulatorFactory / "
              "IAdder report (TLC trace validation); result step never coarser than the finest operand; widening N "
              "never narrows.",
-        design="7 C17", note="merge layers (Add/Maximum/Concatenate) are not yet covered"),
+        design="7 C17", note="merge layers Add / Maximum / Concatenate are judged on operand pairs (adder property resp. containment of both operand types)"),
     "C19": dict(
         spec="QOps.tla + MC_QOps + Trace_QOps",
         text="TLC proves the closed-form operation counts equal the loop-nest cardinalities (output positions from "
